@@ -10,6 +10,8 @@ import (
 	"sort"
 	"strings"
 
+	"github.com/pingcap/kvproto/pkg/metapb"
+	"github.com/tikv/pd/server/core"
 	"github.com/tikv/pd/server/schedule/placement"
 )
 
@@ -163,8 +165,77 @@ func (g *gen) existing(md *model) (string, string) {
 	return p[0], p[1]
 }
 
+var allKinds = []string{kSetRule, kDeleteRule, kSetRules, kBatch, kSetRuleGroup, kDeleteRuleGroup, kSetGroupBundle,
+	kSetAllGroupBundles, kDeleteGroupBundle, kGetModifySet, kGetEditSetGroup, kGetEditSetBundle}
+
+// opOfKind generates an update of the given kind.
+func (g *gen) opOfKind(md *model, kind string) opSpec {
+	for {
+		if op := g.op(md); op.Kind == kind {
+			return op
+		}
+	}
+}
+
+func isGetEditSet(op opSpec) bool {
+	return op.Kind == kGetModifySet || op.Kind == kGetEditSetGroup || op.Kind == kGetEditSetBundle
+}
+
+// opName is the operation kind, with the getter for get-edit-set patterns that do not go through GetRule.
+func opName(op opSpec) string {
+	if op.Mod != nil && op.Mod.Again {
+		return op.Kind + "+edit+SetRule"
+	}
+	if op.Mod != nil && op.Mod.Via != "" {
+		return op.Kind + "[" + op.Mod.Via + "]"
+	}
+	return op.Kind
+}
+
+// getEditSet: an object obtained from some other getter than GetRule is edited and set again.
+func (g *gen) getEditSet(md *model) opSpec {
+	switch g.rng.Intn(3) {
+	case 0:
+		gr, id := g.existing(md)
+		m := &modSpec{Group: gr, ID: id, Via: g.pick([]string{"GetAllRules", "GetRulesByGroup", "GetRulesByKey", "GetRulesForApplyRegion", "GetGroupBundle", "GetAllGroupBundles"})}
+		switch g.rng.Intn(4) {
+		case 0, 1:
+			m.Field, m.Int = "count", 1+g.rng.Intn(5)
+		case 2:
+			m.Field, m.Int = "index", g.index()
+		default:
+			m.Field, m.Strs = "labels", [][]string{nil, {"zone"}, {"zone", "rack", "host"}}[g.rng.Intn(3)]
+		}
+		return opSpec{Kind: kGetModifySet, Mod: m}
+	case 1:
+		gr, _ := g.existing(md)
+		m := &modSpec{Group: gr, Via: g.pick([]string{"GetRuleGroup", "GetRuleGroups"})}
+		if g.rng.Intn(3) == 0 {
+			m.Field, m.Bool = "override", g.rng.Intn(2) == 0
+		} else {
+			m.Field, m.Int = "index", g.group("").Index
+		}
+		return opSpec{Kind: kGetEditSetGroup, Mod: m}
+	default:
+		gr, _ := g.existing(md)
+		m := &modSpec{Group: gr, Via: g.pick([]string{"GetGroupBundle", "GetAllGroupBundles"})}
+		switch g.rng.Intn(3) {
+		case 0:
+			m.Field, m.Int = "index", g.group("").Index
+		case 1:
+			m.Field, m.Bool = "override", g.rng.Intn(2) == 0
+		default:
+			m.Field, m.Int = "count", 1+g.rng.Intn(4)
+		}
+		return opSpec{Kind: kGetEditSetBundle, Mod: m}
+	}
+}
+
 // op generates the next update given the configured state.
 func (g *gen) op(md *model) opSpec {
+	if g.rng.Intn(100) < 9 {
+		return g.getEditSet(md)
+	}
 	switch x := g.rng.Intn(100); {
 	case x < 22:
 		r := g.rule("", "")
@@ -224,6 +295,9 @@ func (g *gen) op(md *model) opSpec {
 		switch y := g.rng.Intn(20); {
 		case y < 8: // what server.SetReplicationConfig does
 			m.Field, m.Int = "count", 1+g.rng.Intn(5)
+			if g.rng.Intn(3) == 0 { // ... and its roll-back after a failed Persist
+				m.Again, m.Int2 = true, 1+g.rng.Intn(5)
+			}
 		case y < 11:
 			m.Field, m.Strs = "labels", [][]string{nil, {"zone"}, {"zone", "rack", "host"}}[g.rng.Intn(3)]
 		case y < 13:
@@ -303,9 +377,65 @@ func applyReal(m *placement.RuleManager, op opSpec) (err error, notFound bool) {
 		return m.SetAllGroupBundles(bs, op.OverrideAll), false
 	case kDeleteGroupBundle:
 		return m.DeleteGroupBundle(op.GroupID, op.Regex), false
+	case kGetEditSetGroup:
+		var rg *placement.RuleGroup
+		if op.Mod.Via == "GetRuleGroups" {
+			for _, x := range m.GetRuleGroups() {
+				if x.ID == op.Mod.Group {
+					rg = x
+				}
+			}
+		} else {
+			rg = m.GetRuleGroup(op.Mod.Group)
+		}
+		if rg == nil {
+			return nil, true
+		}
+		if op.Mod.Field == "index" {
+			rg.Index = op.Mod.Int
+		} else {
+			rg.Override = op.Mod.Bool
+		}
+		return m.SetRuleGroup(rg), false
+	case kGetEditSetBundle:
+		edit := func(b *placement.GroupBundle) bool {
+			switch op.Mod.Field {
+			case "index":
+				b.Index = op.Mod.Int
+			case "override":
+				b.Override = op.Mod.Bool
+			default:
+				if len(b.Rules) == 0 {
+					return false
+				}
+				b.Rules[0].Count = op.Mod.Int
+			}
+			return true
+		}
+		if op.Mod.Via == "GetAllGroupBundles" {
+			bs := m.GetAllGroupBundles()
+			for i := range bs {
+				if bs[i].ID == op.Mod.Group {
+					if !edit(&bs[i]) {
+						return nil, true
+					}
+					return m.SetAllGroupBundles(bs, true), false
+				}
+			}
+			return nil, true
+		}
+		if m.GetRuleGroup(op.Mod.Group) == nil {
+			return nil, true
+		}
+		b := m.GetGroupBundle(op.Mod.Group)
+		if !edit(&b) {
+			return nil, true
+		}
+		return m.SetGroupBundle(b), false
 	case kGetModifySet:
-		// the pattern of server.SetReplicationConfig: GetRule, change a field, SetRule
-		r := m.GetRule(op.Mod.Group, op.Mod.ID)
+		// the pattern of server.SetReplicationConfig: GetRule, change a field, SetRule; with Via the
+		// rule object comes from another getter
+		r := getRuleVia(m, op.Mod)
 		if r == nil {
 			return nil, true
 		}
@@ -325,7 +455,49 @@ func applyReal(m *placement.RuleManager, op opSpec) (err error, notFound bool) {
 		case "end":
 			r.EndKeyHex = op.Mod.Str
 		}
+		if err := m.SetRule(r); err != nil || !op.Mod.Again {
+			return err, false
+		}
+		r.Count = op.Mod.Int2
 		return m.SetRule(r), false
 	}
 	panic(fmt.Sprintf("unknown op %s", op.Kind))
+}
+
+func getRuleVia(m *placement.RuleManager, mod *modSpec) *placement.Rule {
+	find := func(rs []*placement.Rule) *placement.Rule {
+		for _, r := range rs {
+			if r.GroupID == mod.Group && r.ID == mod.ID {
+				return r
+			}
+		}
+		return nil
+	}
+	switch mod.Via {
+	case "", "GetRule":
+		return m.GetRule(mod.Group, mod.ID)
+	case "GetAllRules":
+		return find(m.GetAllRules())
+	case "GetRulesByGroup":
+		return find(m.GetRulesByGroup(mod.Group))
+	case "GetGroupBundle":
+		return find(m.GetGroupBundle(mod.Group).Rules)
+	case "GetAllGroupBundles":
+		for _, b := range m.GetAllGroupBundles() {
+			if r := find(b.Rules); r != nil {
+				return r
+			}
+		}
+		return nil
+	}
+	// by key / by region: ask at the rule's own start key
+	cur := m.GetRule(mod.Group, mod.ID)
+	if cur == nil {
+		return nil
+	}
+	if mod.Via == "GetRulesByKey" {
+		return find(m.GetRulesByKey(cur.StartKey))
+	}
+	end := append(append([]byte(nil), cur.StartKey...), 0)
+	return find(m.GetRulesForApplyRegion(core.NewRegionInfo(&metapb.Region{Id: 1, StartKey: cur.StartKey, EndKey: end}, nil)))
 }
